@@ -186,6 +186,14 @@ func (ex *Exec) paramVal(name string, t types.Type) Val {
 	s := ex.e.sortOf(t)
 	c := ex.e.declConst("p_"+sanitize(name), s)
 	ex.inputs = append(ex.inputs, c)
+	if s == "Str" {
+		// the text of a string input is part of the counterexample: its length and first bytes
+		ex.e.assume(fmt.Sprintf("(and (>= (str_len %s) 0) (<= (str_len %s) 1099511627776))", c, c))
+		ex.inputs = append(ex.inputs, fmt.Sprintf("(str_len %s)", c))
+		for i := 0; i < 48; i++ {
+			ex.inputs = append(ex.inputs, fmt.Sprintf("(str_at %s %d)", c, i))
+		}
+	}
 	ex.e.assume(ex.e.rangeAssume(c, t))
 	if s == "Ref" {
 		ex.e.assume(fmt.Sprintf("(or (= %s nil) (select %s (rootref %s)))", c, ex.entry.get("alloc"), c))
@@ -513,6 +521,15 @@ func (ex *Exec) jsEffect3(st *State, abrupt, goCode bool) *State {
 	}
 	n := st.havocAll(keep)
 	n.heap["jsfx"] = "true"
+	if !goCode && ex.curBlock != nil {
+		for _, cls := range ex.g.scriptRely {
+			for _, cl := range cls {
+				if t := ex.clauseTermAll(cl, n, st); t != "" {
+					ex.assumeHere(t)
+				}
+			}
+		}
+	}
 	if abrupt && !goCode && ex.curBlock != nil {
 		for _, h := range ex.rootExec().held {
 			ex.assumeHere(ex.clauseTerm(h.cl, map[string]Val{h.cl.ObsName: h.v}, n, st, false))
@@ -960,6 +977,15 @@ func (ex *Exec) loopHead(li *loopInfo) {
 			ex.st.havoc(v)
 		}
 	}
+	// the allocation sets only grow: what existed on entry still exists at the head of any iteration
+	for _, an := range [][2]string{{"alloc", "Ref"}, {"allocA", "ArrRef"}} {
+		if vars[an[0]] {
+			cur, ent := ex.st.get(an[0]), ex.entry.get(an[0])
+			if cur != ent {
+				ex.assumeHere(fmt.Sprintf("(forall ((x %s)) (! (=> (select %s x) (select %s x)) :pattern ((select %s x))))", an[1], ent, cur, cur))
+			}
+		}
+	}
 	// 2a. the function's frame is an implicit loop invariant: what the assigns clause does not
 	// mention is still as on entry (checked again on every back edge)
 	if !all && ex.parent == nil {
@@ -978,6 +1004,15 @@ func (ex *Exec) loopHead(li *loopInfo) {
 			continue
 		}
 		c := e.freshConst("lv_"+sanitize(phi.Comment), old.S)
+		if old.S == "Str" && ex.parent == nil {
+			// a string carried around the loop (typically the unread rest of an input): part of the
+			// counterexample, and a candidate input for the replay
+			e.assume(fmt.Sprintf("(and (>= (str_len %s) 0) (<= (str_len %s) 1099511627776))", c, c))
+			ex.inputs = append(ex.inputs, fmt.Sprintf("(str_len %s)", c))
+			for i := 0; i < 48; i++ {
+				ex.inputs = append(ex.inputs, fmt.Sprintf("(str_at %s %d)", c, i))
+			}
+		}
 		e.assume(e.rangeAssume(c, phi.Type()))
 		if old.S == "Ref" {
 			e.assume(fmt.Sprintf("(or (= %s nil) (select %s (rootref %s)))", c, ex.st.get("alloc"), c))
